@@ -8,6 +8,7 @@ import (
 	"github.com/opsidian/parsley/parsley"
 	"github.com/opsidian/parsley/text"
 
+	"verifharness/internal/gram"
 	"verifharness/internal/run"
 )
 
@@ -15,15 +16,18 @@ import (
 
 // c05eval evaluates raw; the file is the (1+len(before))-th of a shared file set, as when several
 // inputs are evaluated in sequence with one file set
-func c05eval(a *arithParsers, raw string, before []string) (v interface{}, err error, pan string, calls int) {
+func c05eval(a *arithParsers, raw string, before []string, far int) (v interface{}, err error, pan string, calls int) {
 	fs := parsley.NewFileSet()
+	if far > 0 {
+		fs.AddFile(gram.Filler("far", far, '7')) // the set already holds a large file: global positions beyond 2^16 ... 2^40
+	}
 	for i, b := range before {
 		fs.AddFile(text.NewFile(fmt.Sprintf("earlier%d", i), []byte(b)))
 	}
 	f := text.NewFile("f", []byte(raw))
 	ctx := parsley.NewContext(fs, placeFile(fs, f, (len(raw)+len(before))%2 == 1))
 	// the earlier inputs of the set were evaluated (and their errors rendered) before this one
-	for p := 1; p < int(f.Pos(0)); p += 3 {
+	for p := 1 + far; p < int(f.Pos(0)); p += 3 {
 		_ = fs.Position(parsley.Pos(p)).String()
 	}
 	func() {
@@ -41,6 +45,11 @@ var c05ws = []string{" ", " ", "\t", "\n", "\r\n", "\f", "  "}
 
 func c05exec(j run.Job, a *run.Acc) {
 	r := rand.New(rand.NewSource(j.Seed))
+	if n := j.Param("burn", 0); n > 0 {
+		// the grammar is constructed late in the life of the process: its Memoize indices are beyond 8 / 10 / 16 bits
+		burnParserIndices(n)
+		a.Count("jobs whose grammar is built after hundreds to 140000 other memoized parsers", 1)
+	}
 	baseFirst := j.Param("basefirst", 0) == 1
 	ar := newArithOrder(baseFirst)
 	if baseFirst {
@@ -89,8 +98,15 @@ func c05exec(j run.Job, a *run.Acc) {
 				before = append(before, []string{"1 + 2 * 3", "7", "", "(4 - 1) / 0\n", strings.Repeat("9 * ", 20) + "1"}[r.Intn(5)])
 			}
 		}
+		far := 0
+		if r.Intn(25) == 0 {
+			far = gram.BigOffsets[r.Intn(len(gram.BigOffsets))]
+		}
 		if !a.Begin() {
 			continue
+		}
+		if far > 0 {
+			a.Count("cases placed after a file of 64 KiB ... 2^40 bytes", 1)
 		}
 		if len(raw) > 2000 {
 			a.Count("skipped: longer than 2000 bytes", 1)
@@ -102,9 +118,9 @@ func c05exec(j run.Job, a *run.Acc) {
 			// offsets known by construction refer to raw; line/column on the CRLF-normalised content
 			norm := string(specNormalise([]byte(raw)))
 			want, bad := arithEval(ast)
-			v, err, pan, calls := c05eval(ar, raw, before)
+			v, err, pan, calls := c05eval(ar, raw, before, far)
 			a.Count("parser calls", int64(calls))
-			d := map[string]any{"input": raw, "calls": calls, "earlier_files_in_the_set": before}
+			d := map[string]any{"input": raw, "calls": calls, "earlier_files_in_the_set": before, "bytes_of_a_large_file_before": far}
 			switch {
 			case pan != "":
 				d["panic"] = pan
@@ -157,9 +173,9 @@ func c05exec(j run.Job, a *run.Acc) {
 		in := string(mutated)
 		norm := string(specNormalise(mutated))
 		ok, want, div := arithRecognise(norm)
-		v, err, pan, calls := c05eval(ar, in, before)
+		v, err, pan, calls := c05eval(ar, in, before, far)
 		a.Count("parser calls", int64(calls))
-		d := map[string]any{"input": in, "original": raw, "earlier_files_in_the_set": before}
+		d := map[string]any{"input": in, "original": raw, "earlier_files_in_the_set": before, "bytes_of_a_large_file_before": far}
 		switch {
 		case pan != "":
 			d["panic"] = pan
@@ -211,15 +227,19 @@ func init() {
 				n, per, depth = 64, 1200, 8
 			}
 			for i := 0; i < n; i++ {
-				jobs = append(jobs, run.Job{Family: "generated", Seed: seed*100000 + int64(i), N: per, P: map[string]int{"depth": depth, "basefirst": i % 2}})
-				jobs = append(jobs, run.Job{Family: "mutated", Seed: seed*100000 + 50000 + int64(i), N: per, P: map[string]int{"depth": depth - 2, "basefirst": (i / 2) % 2}})
+				burn := 0
+				if i%4 == 3 {
+					burn = []int{200, 520, 1100, 70000, 140000}[(i/4)%5]
+				}
+				jobs = append(jobs, run.Job{Family: "generated", Seed: seed*100000 + int64(i), N: per, P: map[string]int{"depth": depth, "basefirst": i % 2, "burn": burn}})
+				jobs = append(jobs, run.Job{Family: "mutated", Seed: seed*100000 + 50000 + int64(i), N: per, P: map[string]int{"depth": depth - 2, "basefirst": (i / 2) % 2, "burn": burn}})
 			}
 			return jobs
 		},
 		Exec: c05exec,
 		Finish: func(tier string, a *run.Acc, cov map[string]any) string {
 			cov["rule"] = "harness grammar from library parts: expr -> expr (+|-) term | term, term -> term (*|/) factor | factor, factor -> Integer | ( expr ), all memoized, tokens left-trimmed, Sentence(Trim(expr)), half of the jobs with the non-recursive alternative listed first (term | expr op term); " +
-				"binary interpreter on int64 reporting division by zero at the operator node. 'generated': expressions printed from a random AST (signed decimal/hex/octal literals, nesting, free whitespace incl. LF/CRLF/FF) " +
+				"a quarter of the jobs construct the grammar after 200-140000 other memoized parsers, one case in 25 is placed after a file of 64 KiB ... 2^40 bytes; binary interpreter on int64 reporting division by zero at the operator node. 'generated': expressions printed from a random AST (signed decimal/hex/octal literals, nesting, free whitespace incl. LF/CRLF/FF) " +
 				"so value, first division by zero in evaluation order and its line:column are known by construction. 'mutated': 1-2 byte edits; an independent recursive-descent recogniser (C08 integer scanner) decides " +
 				"well-formedness, value and error position; ill-formed => error required, never a panic. non-trivial = value/err compared on an input with at least one operator, or an ill-formed input rejected"
 			if a.Counters["values compared"] == 0 || a.Counters["division by zero cases"] == 0 || a.Counters["ill-formed mutations"] == 0 {
